@@ -432,6 +432,11 @@ class SymInterp(PathInterp):
             if value_node is not None and isinstance(value_node, ast.Call) and isinstance(value_node.func, ast.Attribute) and value_node.func.attr in ("copy", "deepcopy") \
                     and isinstance(value_node.func.value, ast.Name) and value_node.func.value.id == target.id and not value_node.args:
                 return st.event("copy", target.id)  # `x = x.copy()`: same content, the binding is kept
+            if value_node is not None and (isinstance(value_node, (ast.Dict, ast.List, ast.Set)) or (
+                    isinstance(value_node, ast.Call) and ast.unparse(value_node.func) in ("dict", "list", "set", "defaultdict", "collections.defaultdict", "OrderedDict") and not value_node.args)):
+                # a fresh mutable container: an object that later statements fill; the name stays (it is not a staging alias)
+                drop = Sym(tuple((n, x) for n, x in st.env if n != target.id), st.conds, st.events)
+                return drop.event("new", target.id, value_text)
             return st.set(target.id, value_text)
         if isinstance(target, ast.Attribute) and isinstance(target.value, ast.Name) and target.value.id != "self":
             k = f"{target.value.id}.{target.attr}"
